@@ -1572,7 +1572,29 @@ func sortU64(xs []uint64) {
 
 // ---- C10 ----
 
+// the library's own request type reads the REAL clock on every question: one *flyio.Access value asked again after a
+// validity window has closed is refused (a request object that remembers its first clock reading keeps clearing)
+func flyioAccessClockRun() string {
+	now := time.Now()
+	cs := macaroon.NewCaveatSet(&flyio.Organization{ID: 1, Mask: resset.ActionAll}, &macaroon.ValidityWindow{NotBefore: now.Unix() - 10, NotAfter: now.Unix() + 1})
+	acc := &flyio.Access{OrgID: p64(1), Action: resset.ActionRead}
+	if err := cs.Validate(acc); err != nil {
+		return "harness-error(" + strings.ReplaceAll(err.Error(), " ", "_") + ")"
+	}
+	time.Sleep(time.Until(time.Unix(now.Unix()+2, 50_000_000)))
+	if cs.Validate(acc) == nil {
+		return "the-same-request-value-still-cleared-after-the-window-closed"
+	}
+	if cs.Validate(&flyio.Access{OrgID: p64(1), Action: resset.ActionRead}) == nil {
+		return "a-fresh-request-cleared-after-the-window-closed"
+	}
+	return "sound"
+}
+
 func famFlyio(r *Rng, o *Out, tier string) {
+	clock := make(chan string, 1)
+	go func() { clock <- flyioAccessClockRun() }() // sleeps two seconds: runs next to the rest of the family
+	defer func() { o.emit("(const sound)", <-clock) }()
 	// Access.Validate on all 2^13 presence patterns x feature in {lfsc, other}
 	feats := []string{flyio.FeatureLFSC, "wg"}
 	for pat := 0; pat < 1<<13; pat++ {
